@@ -240,6 +240,12 @@ def runFieldOp (flds : Array (Fld C)) (j : Json) : Option Res := do
   | "bins" => do
     let c := crat (← fRat? j "cre") (← fRat? j "cim")
     some (ofExF (fieldBinScalar (← fStr? j "name") ((fBool? j "rev").getD false) f c (← fNat? j "cdt")))
+  | "unite" => do
+    let g ← flds[(← fNat? j "g")]?
+    some (ofExF (fieldBin "add" false f g))
+  | "flexible_addsub" => do
+    let g ← flds[(← fNat? j "g")]?
+    some (ofExF (fieldBin (if (fBool? j "neg").getD false then "sub" else "add") false f g))
   | "scale" => do
     let c := crat (← fRat? j "cre") (← fRat? j "cim")
     if c == 1 then some .same else
@@ -281,6 +287,20 @@ def runMFieldOp (mfs : Array (MFld C)) (j : Json) : Option Res := do
     let dt := (List.zip a.leaves b.leaves).foldl
       (fun d kv => max d (match sVdot CRat.conj kv.1.2 kv.2.2 with | .ok v => duccDt v | _ => DT.float)) DT.float
     some (match msVdot CRat.conj a b with | .error e => .err e | .ok v => .sc dt v false)
+  | "mvdot" => do
+    let b ← mfs[(← fNat? j "b")]?
+    let dt := (List.zip a.leaves b.leaves).foldl
+      (fun d kv => max d (match sVdot CRat.conj kv.1.2 kv.2.2 with | .ok v => duccDt v | _ => DT.float)) DT.float
+    some (match msVdot CRat.conj a b with
+      | .error e => .err e
+      | .ok v => .fld { dom := 0, subs := [], dt := dt, val := fun _ => v } false)
+  | "ms_all" => some (.sc DT.bool (b2c (a.leaves.all fun kv => isTrue (sProd (indicator kv.2)))) false)
+  | "ms_any" => some (.sc DT.bool (b2c (a.leaves.any fun kv => isTrue (sSum (indicator kv.2)))) false)
+  | "msize" => some (.sc DT.int (CRat.ofRat ((a.leaves.foldl (fun n kv => n + prodNat kv.2.sizes) 0 : Nat) : Int)) false)
+  | "mflex" => do
+    let b ← mfs[(← fNat? j "b")]?
+    let neg := (fBool? j "neg").getD false
+    some (resOfMF (mflex (fieldBin "add" false) (fieldBin "sub" false) (unop (fun x => -x) id) a b neg))
   | "ms_sum" => some (.sc (a.leaves.foldl (fun d kv => max d kv.2.dt) DT.int) (msSum a) false)
   | "mnorm" => do
     match (← fStr? j "ord") with
